@@ -62,6 +62,7 @@ def generate(seed, tier):
         p_bool=swarm.pick([0, .06]), p_err=swarm.pick([0, .06]), p_alias=.25, p_arrlit=.06, p_refop=swarm.pick([0, .12]),
         w_if=swarm.pick([0, 2]), w_iferror=swarm.pick([0, 1]),
         w_istype=swarm.pick([0, .7]), w_engfn=swarm.pick([0, 0, 1]),
+        p_xname=swarm.pick([0, .3]),
         depth=swarm.pick([1, 2, 3]),
     )
     world = gen_world(rng, prof)
